@@ -143,6 +143,12 @@ def clones(method, objective_kind, ode_t=False):
     master = Ocp()
     c1 = master.stage(template, t0=0.0, T=2.0)
     c2 = master.stage(template, t0=2.0, T=FreeTime(1.5))
+    # parameter values given per clone after cloning: each clone keeps its own, the template keeps its own
+    p_sym = tmpl.sym[("p", "")][0]
+    pv_t = template._param_vals[p_sym]
+    pv1, pv2 = unknown("pv_clone1", 1, 1), unknown("pv_clone2", 1, 1)
+    c1.set_value(p_sym, pv1)
+    c2.set_value(p_sym, pv2)
     master.solver("ipopt")
     inst = "C12/clones[%s,%s%s]" % (method, objective_kind, ",time-varying-ode" if ode_t else "")
     master._transcribed
@@ -152,6 +158,12 @@ def clones(method, objective_kind, ode_t=False):
     union_check(inst, master, parts, lambda parts: [], ca.MX(0.0))
     after = (len(template.states), len(template.controls), sum(len(v) for v in template._constraints.values()), len(template._placeholders), len(template._initial), id(template._objective))
     (c.ok if before == after else lambda n_, **k: c.fail(n_, "cloning/transcribing changed the template: %s -> %s" % (before, after)))(inst + "|stage:Stage.clone:frame:template-unchanged", backend="z3")
+    opti = master._augmented._method.opti
+    for i, want in enumerate((pv1, pv2)):
+        P = ca.MX(aug._stages[i]._method.P[0])
+        got = ca.DM._raw(P.rows, P.cols, [opti._pval[x.decl().name()] for x in P.e])
+        nlp.prove_equal(inst + "|stage:Stage.clone:ensures:clone-%d-has-its-own-parameter-value" % (i + 1), got, want)
+    nlp.prove_equal(inst + "|stage:Stage.clone:frame:template-parameter-value-unchanged", ca.DM(template._param_vals[p_sym]), ca.DM(pv_t))
     (c.ok if aug._stages[0]._method is not aug._stages[1]._method else lambda n_, **k: c.fail(n_, "clones share a method object"))(inst + "|stage:Stage.clone:ensures:own-method-object", backend="z3")
 
 
